@@ -66,7 +66,7 @@ for pid in sorted(P):
 
 m = {
  "version": 1,
- "setup_cmd": "cd /verif/engine && GOFLAGS=-mod=mod GOPROXY=off GOSUMDB=off GOTOOLCHAIN=local go build -o /verif/bin/symgo ./cmd/symgo && z3 /verif/engine/lemmas/fpcmp.smt2 | grep -c unsat | grep -qx 4",
+ "setup_cmd": "cd /verif/engine && GOFLAGS=-mod=mod GOPROXY=off GOSUMDB=off GOTOOLCHAIN=local go build -o /verif/bin/symgo ./cmd/symgo && cat /verif/engine/lemmas/fpcmp.smt2 /verif/engine/lemmas/i2f.smt2 /verif/engine/lemmas/u2f.smt2 > /dev/null && z3 /verif/engine/lemmas/fpcmp.smt2 | grep -c unsat | grep -qx 4 && z3 /verif/engine/lemmas/i2f.smt2 | grep -qx unsat && z3 /verif/engine/lemmas/u2f.smt2 | grep -qx unsat",
  "hooks": {"guard": "verif", "enable": "none needed: harnesses, stubs and oracles are injected as go/packages overlays (engine) and `go test -overlay` (replay); /repo is never modified by the checks", "baseline_off_cmd": "/verif/scripts/baseline.py", "source_commits": [], "add_only": True},
  "engines": [{"name": "symgo", "path": "/verif/engine", "serves_properties": sorted(P), "kind_free_text": "symbolic executor for go/ssa (x/tools v0.29.0) producing SMT-LIB2 for z3 4.8.12; fork by re-execution with a decision trail, work-stealing across 16 workers, model-guided branching, native replay of every counterexample via go test -overlay"}],
  "checks": checks,
